@@ -12,7 +12,9 @@ from vlib import tlc, gobuild
 from vlib.core import Inconclusive, sh
 
 
-def split(tracefile):
+def split(tracefile, sync=False):
+    """Executions (one per connection end).  The synchronisation events of the verif build (dir = "sync") belong to
+    RpcSync (props/rpcsync.py); the wire specification sees messages only."""
     by = collections.defaultdict(list)
     with open(tracefile) as f:
         for ln in f:
@@ -20,6 +22,8 @@ def split(tracefile):
                 e = json.loads(ln)
             except ValueError:
                 continue        # a line cut short by a dying process
+            if e.get("dir") == "sync" and not sync:
+                continue
             by[(e["pid"], e["conn"])].append(e)
     out = []
     for k in sorted(by):
